@@ -358,7 +358,7 @@ func lpMatrix(t *vlib.T, gd *lpGuard, st *lpStats, sp *lpSpace, a []float64, aId
 				st.numeric = append(st.numeric, fmt.Sprintf("%v: %s", err, fmtProg(m, n, a, b, c)))
 			}
 			if msg != "" {
-				t.SubViolation(" "+fmtProg(m, n, a, b, c), vclass, nil, "%s [%s; exact: %v%s]", msg, fmtProg(m, n, a, b, c), ans.class, optStr(&ans))
+				report(t, " "+fmtProg(m, n, a, b, c), vclass, nil, "%s [%s; exact: %v%s]", msg, fmtProg(m, n, a, b, c), ans.class, optStr(&ans))
 			}
 			if sweep && ans.precondOK {
 				for _, basis := range ans.feasible {
@@ -367,7 +367,7 @@ func lpMatrix(t *vlib.T, gd *lpGuard, st *lpStats, sp *lpSpace, a []float64, aId
 					st.n["basis:"+oc]++
 					t.Count("lp_initial_basis_runs", 1)
 					if msg != "" {
-						t.SubViolation(fmt.Sprintf(" %s initialBasic=%v", fmtProg(m, n, a, b, c), basis), vclass, nil, "with initialBasic=%v: %s [%s; exact: %v%s]", basis, msg, fmtProg(m, n, a, b, c), ans.class, optStr(&ans))
+						report(t, fmt.Sprintf(" %s initialBasic=%v", fmtProg(m, n, a, b, c), basis), vclass, nil, "with initialBasic=%v: %s [%s; exact: %v%s]", basis, msg, fmtProg(m, n, a, b, c), ans.class, optStr(&ans))
 					}
 				}
 			}
